@@ -437,6 +437,30 @@ pub fn run(ctx: &Ctx) {
     });
     ctx.part_done("directed-prior-states", true, json!("11 types x 2 flip styles x 13 directed prior states x 6 variants x {configure, configure_if_needed}"));
 
+    // long page lists in one send_pages call (more pages than there are one-byte page ids)
+    par_range(ctx, "long-page-lists", 8, |i, st| {
+        let n = [255usize, 256, 257, 300][(i % 4) as usize];
+        let c = Scenario {
+            sign_type: if i < 4 { 5 } else { 4 },
+            automatic: i % 2 == 1,
+            addr: 0x0033,
+            bystander: if i >= 4 { Some((0x0034, false)) } else { None },
+            directed: None,
+            prior: vec![],
+            use_configure_if_needed: false,
+            rounds: vec![
+                Round { pages: (0..n).map(|k| if k % 3 == 0 { PageSpec::Raw(i * 1000 + k as u64) } else { PageSpec::Bits(k as u8, i + k as u64) }).collect(), calls: vec![true, false] },
+                Round { pages: vec![PageSpec::Full(1)], calls: vec![] },
+            ],
+            epilogue: None,
+            bystander_active: false,
+        };
+        check_scenario(&c, st).map_err(|m| (serde_json::to_value(&c).unwrap(), m))?;
+        st.nontrivial_enumerated(1);
+        Ok(())
+    });
+    ctx.part_done("long-page-lists", true, json!("255, 256, 257 and 300 pages in one send_pages call, two sign types, both flip styles"));
+
     let max_pages = ctx.tier.pick(4, 12);
     run_generated(ctx, "scenarios", ctx.tier.pick(150_000, 2_000_000), move || scenario_strategy(max_pages), |c, st| check_scenario(c, st));
 
